@@ -180,3 +180,7 @@ def extra_checks(tier, seed, pool):
     """assumed contracts of repository-internal callees, compared with the real functions natively (contracts/conformance.py)"""
     from . import conformance
     return conformance.run(['time parsers'])
+
+# the callback -> loop path: what on_exit_msg raises inside the transport's out-of-band callback reaches Filter.run (contracts/oobunit.py)
+from .oobunit import OobCallbackUnit
+UNITS.append(OobCallbackUnit())
